@@ -376,12 +376,12 @@ func (e *Engine) load(st *State, a Val, pos token.Pos) Val {
 	case KField:
 		et := elemType(a.Typ)
 		v := term(sel(st.heapGet(a.Heap), a.Base), e.d.SortOf(et), et)
-		e.assumeTypedAt(st, v, st.heapBound(a.Heap))
+		e.assumeTypedAt(st, v, st.loadBound(a.Heap, a.Base))
 		return v
 	case KElem:
 		et := elemType(a.Typ)
 		v := term(sel(sel(st.heapGet(a.Heap), a.Base), a.Idx), e.d.SortOf(et), et)
-		e.assumeTypedAt(st, v, st.heapBound(a.Heap))
+		e.assumeTypedAt(st, v, st.loadBound(a.Heap, a.Base))
 		return v
 	case KArrPtr:
 		et := elemType(a.Typ)
@@ -405,7 +405,7 @@ func (e *Engine) load(st *State, a Val, pos token.Pos) Val {
 		}
 		s := e.d.SortOf(et)
 		v := term(sel(st.heapGet(e.d.BoxHeap(s)), a.T), s, et)
-		e.assumeTypedAt(st, v, st.heapBound(e.d.BoxHeap(s)))
+		e.assumeTypedAt(st, v, st.loadBound(e.d.BoxHeap(s), a.T))
 		return v
 	}
 	panic(unsupported(fmt.Sprintf("load kind %d", a.K)))
